@@ -942,7 +942,9 @@ fn ref_json(an: &xorbenc::Analysis, t: &mut Tables) -> String {
 fn run_scn(a: &Args) -> anyhow::Result<String> {
     let seed = a.u64("seed", 1);
     let mut rng = crate::util::rng(seed);
-    let pool = make_pool(&mut rng);
+    // the pool realises the chunk universe of the model that generated the scenarios (which chunk falls back to
+    // scheme none, which one compresses better regrouped): its content is fixed, whatever the run's seed
+    let pool = make_pool(&mut crate::util::rng(1));
     let mut t = Tables::new();
     let scns: Vec<Value> = std::fs::read_to_string(a.str("in", ""))?.lines().filter(|l| !l.trim().is_empty()).map(serde_json::from_str).collect::<Result<_, _>>()?;
     let outp = a.str("out", "/dev/null");
